@@ -171,6 +171,12 @@ func checkC05Write(c c05WriteCase) string {
 	if len(ind.Cues) != len(c.Doc.Cues) || ind.NUser != 0 {
 		return fmt.Sprintf("independent decoder: %d cues, expected %d", len(ind.Cues), len(c.Doc.Cues))
 	}
+	// the GSI's "time code: first in-cue" is the in-cue of the first subtitle of the list
+	if len(wantTC) > 0 {
+		if tcf := (stlTC{atoiField(out[264:266]), atoiField(out[266:268]), atoiField(out[268:270]), atoiField(out[270:272])}); tcf != wantTC[0][0] {
+			return fmt.Sprintf("independent decoder: GSI first in-cue timecode %+v, the first TTI block starts at %+v (programme start %+v)", tcf, wantTC[0][0], want.TCP)
+		}
+	}
 	for i, wc := range c.Doc.Cues {
 		tc := ind.TCs[i]
 		gIn, gOut := stlTC{int(tc[0]), int(tc[1]), int(tc[2]), int(tc[3])}, stlTC{int(tc[4]), int(tc[5]), int(tc[6]), int(tc[7])}
@@ -417,7 +423,24 @@ func TestC05(t *testing.T) {
 	rapidCheck(t, "C05/write", tier(2000, 100000), func(rt *rapid.T) {
 		avoid := knownActive(kfSTLDollar)
 		c := c05WriteCase{Doc: genSTLDoc(rt, avoid), Meta: rapid.SampledFrom([]string{"stl", "stl", "nil", "inherited"}).Draw(rt, "meta"), Foreign: rapid.IntRange(0, 2).Draw(rt, "foreign") == 0}
+		late := false
+		if c.Meta == "stl" && rapid.IntRange(0, 5).Draw(rt, "latestart") == 0 {
+			// a programme starting late in the evening: the same cues, timed from 23:00:00:00 or 20:30:00:00 on (timecodes
+			// keep counting past the twenty-fourth hour)
+			rate := c.Doc.GSI.Rate
+			old := c.Doc.GSI.TCP.frames(rate)
+			c.Doc.GSI.TCP = rapid.SampledFrom([]stlTC{{23, 0, 0, 0}, {20, 30, 0, 0}}).Draw(rt, "latetcp")
+			shift := c.Doc.GSI.TCP.frames(rate) - old
+			for i := range c.Doc.Cues {
+				cu := &c.Doc.Cues[i]
+				cu.In, cu.Out = tcFromFrames(cu.In.frames(rate)+shift, rate), tcFromFrames(cu.Out.frames(rate)+shift, rate)
+				late = late || cu.In.H >= 24 || cu.Out.H >= 24
+			}
+		}
 		nt, ls := c05Labels(c.Doc)
+		if late {
+			ls = append(ls, "timecode-past-the-24th-hour")
+		}
 		ev.Case(nt, fmt.Sprintf("w%v", c), append(ls, "write", "meta-"+c.Meta)...)
 		if nt && len(c.Doc.Cues) <= 2 {
 			ev.Sample("write", c)
